@@ -313,10 +313,17 @@ class Server(base_server.BaseServer):
                 self._log_error_once(f'Invalid session {sid}', 'bad-sid')
                 r = self._bad_request(f'Invalid session {sid}')
             else:
-                socket = self._get_socket(sid)
                 try:
-                    socket.handle_post_request(environ)
-                    r = self._ok(jsonp_index=jsonp_index)
+                    socket = self._get_socket(sid)
+                except KeyError as e:  # pragma: no cover
+                    # the session was closed but is still in the table
+                    self._log_error_once(f'{e} {sid}', 'bad-sid')
+                    r = self._bad_request(f'{e} {sid}')
+                    socket = None
+                try:
+                    if socket:
+                        socket.handle_post_request(environ)
+                        r = self._ok(jsonp_index=jsonp_index)
                 except exceptions.EngineIOError:
                     if sid in self.sockets:  # pragma: no cover
                         self.disconnect(sid)
